@@ -138,8 +138,12 @@ func checkC15(tier string) {
 	mk := func(plugin string, s c15sig, key, src, sigText string) {
 		n++
 		id := fmt.Sprintf("c%d", n)
+		nres := nresClass(len(s.rtypes))
+		if plugin == "tuple" {
+			nres = "n" // a tuple function yields its arguments (the class results=0 is the recorded 'return f()' finding of the other four plugins)
+		}
 		cases = append(cases, &e1Case{ID: id, Zero: "(*int)(nil)", Key: key,
-			Tags:  map[string]string{"plugin": plugin, "naming": s.naming, "sig": sigText, "tpat": s.tpat, "nres": nresClass(len(s.rtypes))},
+			Tags:  map[string]string{"plugin": plugin, "naming": s.naming, "sig": sigText, "tpat": s.tpat, "nres": nres},
 			Funcs: map[string]string{"fn": strings.ReplaceAll(src, "ID", id)}})
 	}
 	seenTuple := map[string]bool{}
@@ -166,6 +170,10 @@ func checkC15(tier string) {
 					ps = append(ps, fmt.Sprintf("a%d %s", i, t))
 				}
 				mk("tuple", s, "tuple|"+k, "func("+strings.Join(ps, ", ")+") interface{} { return deriveTuple_ID("+strings.Join(args, ", ")+") }", "Tuple("+k+")")
+				// the arguments are the results of one call: deriveTuple(g())
+				sc := s
+				sc.naming = "tuple-of-a-multi-value-call"
+				mk("tuple", sc, "tuple|"+k, "func("+strings.Join(ps, ", ")+") interface{} {\n\t\tg := func() ("+strings.Join(s.ptypes, ", ")+") { return "+strings.Join(args, ", ")+" }\n\t\treturn deriveTuple_ID(g())\n\t}", "Tuple(g()) with g returning ("+k+")")
 			}
 		}
 	}
